@@ -19,13 +19,12 @@ type Env struct {
 	cf      *ContractFile
 	loop    *Loop
 	depth   int
+	// parameters of the function under verification are visible unless shadowed by a local in scope (resolve) or rebound
+	useParams bool
 }
 
 func (vc *FnVC) newEnv(mem, old *Mem) *Env {
-	env := &Env{vc: vc, names: map[string]TV{}, mem: mem, old: old, pkg: vc.fn.Pkg.Pkg, cf: vc.cf}
-	for k, v := range vc.params {
-		env.names[k] = v
-	}
+	env := &Env{vc: vc, names: map[string]TV{}, mem: mem, old: old, pkg: vc.fn.Pkg.Pkg, cf: vc.cf, useParams: true}
 	return env
 }
 
@@ -229,6 +228,11 @@ func (env *Env) ident(name string) (TV, error) {
 	}
 	if env.resolve != nil {
 		if tv, ok := env.resolve(name); ok {
+			return tv, nil
+		}
+	}
+	if env.useParams {
+		if tv, ok := env.vc.params[name]; ok {
 			return tv, nil
 		}
 	}
@@ -557,6 +561,17 @@ func (env *Env) callExpr(x *ECall) (TV, error) {
 			return TV{}, errf("deref of non-pointer %s", args[0].ty)
 		}
 		return TV{t: app("select", env.mem.get(enc.cellComp(p.Elem())), args[0].t), ty: p.Elem()}, nil
+	case "constmap":
+		// constmap(m, v): the ghost map of m's type that maps every key to v
+		if err := evalArgs(); err != nil {
+			return TV{}, err
+		}
+		mt, ok := args[0].ty.Underlying().(*types.Map)
+		if !ok || !args[0].pure {
+			return TV{}, errf("constmap needs a ghost map")
+		}
+		v := env.coerce(args[1], mt.Elem())
+		return TV{t: fmt.Sprintf("((as const %s) %s)", env.vc.pureSort(args[0].ty), v.t), ty: args[0].ty, pure: true}, nil
 	case "comparable":
 		if err := evalArgs(); err != nil {
 			return TV{}, err
@@ -633,6 +648,7 @@ func (env *Env) callExpr(x *ECall) (TV, error) {
 	n := *env
 	n.depth++
 	n.resolve = nil
+	n.useParams = false
 	n.names = map[string]TV{}
 	for i, p := range pd.Params {
 		ty, err := env.vc.w.resolveType(env.pkg, p.Typ)
